@@ -22,7 +22,7 @@ ASSUMPTIONS = [
     "well-formed run brackets: startTestRun and stopTestRun alternate",
 ]
 
-SEGS = ["0", "1", "x", "01", "10"]
+SEGS = ["0", "1", "x", "01", "10", "worker-1", "a.b"]
 ROUTE = st.one_of(st.none(), st.lists(st.sampled_from(SEGS), min_size=1, max_size=4).map("/".join))
 EVENT = streams.event(routes=ROUTE)
 NSINK = 4
@@ -30,7 +30,7 @@ NSINK = 4
 
 @st.composite
 def s_history(draw):
-    cfg = {"fallback": draw(st.booleans()), "fb_dssr": draw(st.booleans())}
+    cfg = {"fallback": draw(st.booleans()), "fb_dssr": draw(st.booleans()), "omit_defaults": draw(st.booleans())}
     if cfg["fallback"] and cfg["fb_dssr"] and draw(st.integers(0, 3)) == 0:
         # the fallback sink itself registers one more rule from inside its startTestRun / stopTestRun
         cfg["reentrant"] = {"when": draw(st.sampled_from(["start", "stop"])), "sink": 3, "test_id": "zz"}
@@ -74,7 +74,8 @@ def s_history(draw):
             ops.append({"op": "stop" if in_run else "start"})
             in_run = not in_run
         else:
-            ops.append({"op": "ev", "ev": draw(EVENT), "omit_defaults": draw(st.booleans())})
+            ops.append({"op": "ev", "ev": draw(EVENT), "omit_defaults": draw(st.booleans()),
+                        "npos": draw(st.sampled_from([0, 0, 1, 2, 3, 9, 10]))})       # how many leading parameters are passed positionally
     if in_run and draw(st.booleans()):
         ops.append({"op": "stop"})
     return {"cfg": cfg, "ops": ops}
@@ -106,7 +107,9 @@ def run_history(spec):
                 streams.Recorder.stopTestRun(self)
                 self._maybe("stop")
         sinks[0] = Reentrant("s0")
-    if cfg["fallback"]:
+    if cfg["fallback"] and cfg["fb_dssr"] and cfg.get("omit_defaults"):
+        router = StreamResultRouter(sinks[0])            # do_start_stop_run defaults to True
+    elif cfg["fallback"]:
         router = StreamResultRouter(sinks[0], do_start_stop_run=cfg["fb_dssr"])
     else:
         router = StreamResultRouter()
@@ -124,8 +127,11 @@ def run_history(spec):
             if op["dssr"] or op["explicit_dssr"]:
                 kw["do_start_stop_run"] = op["dssr"]
             if k == "route":
-                router.add_rule(sinks[op["sink"]], "route_code_prefix", route_prefix=op["prefix"],
-                                consume_route=op["consume"], **kw)
+                if not op["consume"] and cfg.get("omit_defaults"):
+                    router.add_rule(sinks[op["sink"]], "route_code_prefix", route_prefix=op["prefix"], **kw)    # consume_route defaults to False
+                else:
+                    router.add_rule(sinks[op["sink"]], "route_code_prefix", route_prefix=op["prefix"],
+                                    consume_route=op["consume"], **kw)
                 prefixes[op["prefix"]] = (op["sink"], op["consume"])
             else:
                 router.add_rule(sinks[op["sink"]], "test_id", test_id=op["test_id"], **kw)
@@ -134,6 +140,11 @@ def run_history(spec):
                 dssr.append(op["sink"])
                 if in_run:
                     want[op["sink"]].append(("startTestRun",))
+                    # ... and it has been started by the time add_rule returns, not at some later event
+                    got_now = [e[0] for e in sinks[op["sink"]].events if e[0] == "startTestRun"]
+                    if len(got_now) != sum(1 for e in want[op["sink"]] if e[0] == "startTestRun"):
+                        vs.append(V("start-stop", "midrun-not-immediate", "a rule added during a run with do_start_stop_run=True: the sink had seen %d startTestRun calls when add_rule returned, expected %d" % (
+                            len(got_now), sum(1 for e in want[op["sink"]] if e[0] == "startTestRun"))))
             if in_run:
                 midrun = True
         elif k == "bad_rule":
@@ -195,7 +206,13 @@ def run_history(spec):
                 target = 0
             before = [len(s.events) for s in sinks]
             try:
-                router.status(**kw)
+                npos = op.get("npos", 0)
+                pos = []
+                for f in streams.FIELDS[:npos]:
+                    if f not in kw:
+                        break
+                    pos.append(kw.pop(f))
+                router.status(*pos, **kw)
                 raised = None
             except Exception as e:
                 raised = e
